@@ -1,15 +1,10 @@
 (** The local validator's own actions (kernel.go handleStateMachineAction, Model/MirrorMgr.v
-    [act_step]): the invariants of the mirror kernel are preserved by local actions, and the
-    reachability closure that contains kernel operations, round entrances and local actions.
-
-    - authenticity ([auth_state], Proofs/MirrorAuth.v): preserved by EVERY local action, without any
-      hypothesis on the state machine (AddSignature verifies before the bit is set; a proposed
-      header carries no vote signature);
-    - chain / position / validator-set invariant ([cinv], Proofs/MirrorChain.v): preserved by every
-      local VOTE; preserved by a local PROPOSED HEADER under the hypothesis that the header is one
-      HandleProposedHeader would have accepted ([local_ph_ok]) - the kernel files the state machine's
-      own header without any of those checks, and without the hypothesis the invariant is false
-      ([cinv_local_ph_refuted]). *)
+    [act_step]): authenticity ([auth_state], Proofs/MirrorAuth.v) is preserved by EVERY local action,
+    without any hypothesis on the state machine - AddSignature verifies before the bit is set, under the
+    key found at the index the signature is filed under ([key_index_nth]); a proposed header carries no
+    vote signature.  Imported by Proofs/MirrorStreams.v (C11 over histories with local actions).
+    The closures, the chain invariant / [INV] and the necessity witness are in Proofs/MirrorActInv.v,
+    the Panic sites in Proofs/MirrorActTotal.v. *)
 From Coq Require Import List NArith Arith Bool Lia String.
 From GV Require Import Base.Ints Gen.Math Gen.Kernel Model.Mirror Model.MirrorMgr
   Proofs.MirrorAuth.
